@@ -25,6 +25,22 @@ Definition hstyle_of (s : hsel) : option hstyle :=
   | HCustom l => hstyle_of_list l
   end.
 
+(* the styles documented as box-drawing styles (const, const_bold, rounded, double) and custom
+   styles made of box-drawing characters only: their output must decode from the characters' arms *)
+Definition vbox (s : vsel) : bool :=
+  match s with
+  | VBuiltin i => Nat.leb 2 i
+  | VCustom a b c => false
+  end.
+Definition hbox (s : hsel) : bool :=
+  match s with
+  | HBuiltin i => Nat.leb 2 i
+  | HCustom l => match l with
+                 | [_; _; _; _; _; _; _] => forallb (fun x => match x with [c] => is_box c | _ => false end) l
+                 | _ => false
+                 end
+  end.
+
 Definition glyphs_of (st : hstyle) : hglyphs :=
   HG (hs_first st) (hs_subseq st) (hs_split st) (hs_middle st) (hs_last st) (hs_stem st) (hs_branch st).
 
@@ -136,6 +152,7 @@ Definition prop_C18 (c : rcase) : bool :=
             | Some l => prop_C18_v st (compact s) l
                         && match po, printed with
                            | None, Some pl => v_text_decodable st (compact s) pl   (* plain text: decode it *)
+                                              && (negb (vbox sel) || v_box_decodable (compact s) pl)
                            | None, None => false
                            | Some _, _ => true       (* with attribute suffixes: compared with the model only *)
                            end
@@ -148,7 +165,7 @@ Definition prop_C18 (c : rcase) : bool :=
       match get_subtree t start md, hstyle_of sel with
       | Some s, Some st =>
           match out with
-          | Some l => prop_C18_h (glyphs_of st) inter s l
+          | Some l => prop_C18_h (glyphs_of st) inter s l && (negb (hbox sel) || h_box_decodable inter s l)
           | None => false
           end
       | _, _ => match out with None => true | Some _ => false end
